@@ -434,6 +434,11 @@ Triples(JS, SRC) ==
   \cup {MkB(Bin(o2, Scale(Leaf(1), AtomS(j1, 1)), Bin(o1, AtomL(j2), AtomS(j3, 2))), <<q1, q2>>) :
       o1 \in Ops, o2 \in Ops, j1 \in JS, j2 \in 1..3, j3 \in JS, q1 \in SRC, q2 \in SRC}
 
+\* powers: f ** 2 and f ** 3 are the products f * f and (f * f) * f of tee copies of one filter
+Powers(JS, SRC) ==
+  {MkB(Bin("mul", AtomS(j, 1), AtomS(j, 1)), <<q>>) : j \in JS, q \in SRC}
+  \cup {MkB(Bin("mul", Bin("mul", AtomS(j, 1), AtomS(j, 1)), AtomS(j, 1)), <<q>>) : j \in JS, q \in SRC}
+
 Keep(S) == {c \in S : Covered(c)}     \* evaluated once, at constant level
 
 \* The grids themselves are in FilterC06Q.tla / FilterC06T.tla (TLC evaluates every parameterless definition
